@@ -200,6 +200,8 @@ def own_param_logic(tkey, ps):
 
 PARAM_TYPES = ["range", "range", "range", "photo", "image", "audio", "background-audio", "geopoint", "geoshape", "geotrace", "text"]
 
+LABELS = {"a": "A", "b": "Bee two", "other": "Other"}
+
 SELECTS = [("select_one", "select one"), ("select_multiple", "select all that apply"), ("rank", "rank"),
            ("select one", "select one"), ("select1", "select one"), ("select all that apply", "select all that apply")]
 OR_OTHER = [" or_other", " or other", " or specify other"]
@@ -220,6 +222,14 @@ class ARow:
         self.path = None
         self.extra = {}
         self.params = []
+        self.appearance = None
+        self.tl = False  # begin row of a table-list group
+        self.loop = False  # `begin loop over <list>` row
+        self.loop_list = None
+        self.in_loop = None  # the loop ARow this row is a template child of
+        self.block = False  # part of a directed block (never disabled)
+        self.rownum = None
+        self.rep = False
 
 
 def gen_value(rng, attr, tops):
@@ -259,10 +269,43 @@ def gen_form(rng, big=False, directed=None):
         names.append(n)
         return n
 
+    p_tl = 0.5 if directed == "table-list" else rng.choice([0.0, 0.0, 0.06])
+    p_loop = 0.5 if directed == "loop" else rng.choice([0.0, 0.0, 0.0, 0.05])
+    choices_translated = rng.random() < 0.3
     # first pass: structure
     for _ in range(nq):
         r = rng.random()
-        if r < p_struct and len(stack) < 3:
+        if p_tl and rng.random() < p_tl and len(stack) < 3:
+            # a table-list group: generated label note + label-only header select before the first select
+            g = ARow("begin", fresh("g"), rng.choice(["begin group", "begin_group"]), "")
+            g.tl, g.block = True, True
+            g.appearance = rng.choice(["table-list", "table-list minimal", "minimal table-list", " table-list "])
+            rows.append(g)
+            ln = rng.choice(["l1", "l2"])
+            if rng.random() < 0.3:
+                q0 = ARow("q", fresh("q"), "text", "text")
+                q0.block = True
+                rows.append(q0)
+            for _i in range(rng.randint(1, 3)):
+                cmd, key = rng.choice(SELECTS[:2] + SELECTS[3:])
+                sq = ARow("q", fresh("s"), cmd + " " + ln, key)
+                sq.block = True
+                rows.append(sq)
+            e = ARow("end", None, "end group", "")
+            rows.append(e)
+        elif p_loop and rng.random() < p_loop and len(stack) < 3 and not any(x.loop for x in rows):
+            # a loop block: its rows are instantiated once per choice, %(name)s / %(label)s substituted
+            ln = rng.choice(["l1", "l2"])
+            g = ARow("begin", fresh("g"), rng.choice(["begin loop over ", "begin_loop over "]) + ln, "")
+            g.loop, g.loop_list, g.block = True, ln, True
+            rows.append(g)
+            for _i in range(rng.randint(1, 3)):
+                tcell = rng.choice(["text", "integer", "decimal", "note", "calculate", "date"])
+                cq = ARow("q", fresh("q"), tcell, tcell)
+                cq.in_loop, cq.block = g, True
+                rows.append(cq)
+            rows.append(ARow("end", None, rng.choice(["end loop", "end_loop"]), ""))
+        elif r < p_struct and len(stack) < 3:
             rep = rng.random() < 0.5
             ar = ARow("begin", fresh("g"), rng.choice(["begin group", "begin_group", "begin  group"]) if not rep
                       else rng.choice(["begin repeat", "begin_repeat"]), "")
@@ -275,7 +318,9 @@ def gen_form(rng, big=False, directed=None):
             rows.append(e)
         elif rng.random() < 0.15:
             cmd, key = rng.choice(SELECTS)
-            ar = ARow("q", fresh("s"), cmd + " " + rng.choice(["l1", "l2"]), key)
+            sel_list = rng.choice(["l1", "l2"])
+            ar = ARow("q", fresh("s"), cmd + " " + sel_list, key)
+            ar.loop_list = sel_list
             if key != "rank" and rng.random() < 0.3:
                 ar.other = True
                 ar.tcell += rng.choice(OR_OTHER)
@@ -330,10 +375,19 @@ def gen_form(rng, big=False, directed=None):
                         val[None] = gen_value(rng, a, [])  # unsuffixed column as well
                 else:
                     val = gen_value(rng, a, tops)
+                if ar.in_loop is not None:
+                    # template cells: plain strings, placeholders for the choice the copy is made for
+                    if isinstance(val, dict):
+                        val = gen_value(rng, a, tops)
+                    val = val.replace("%", "")
+                    if rng.random() < 0.6:
+                        ph = "%(name)s" if choices_translated or rng.random() < 0.5 else "%(label)s"
+                        val = rng.choice(["selected(${T}, '" + ph + "')", val + " " + ph, ph + " " + val, "'" + ph + "' != ''"]).replace(
+                            "${T}", "${" + rng.choice(tops) + "}" if tops else "1")
                 ar.logic.append((a, val))
                 if a not in used_attrs:
                     used_attrs.append(a)
-        if ar.kind == "q" and vis_tops and rng.random() < 0.08 and ar.tkey not in ("start", "end", "today"):
+        if ar.kind == "q" and vis_tops and rng.random() < 0.08 and ar.tkey not in ("start", "end", "today") and ar.in_loop is None:
             t = rng.choice(vis_tops)
             if t != ar.name:
                 ar.trigger = "${" + t + "}"
@@ -356,11 +410,13 @@ def gen_form(rng, big=False, directed=None):
         extra_cols.append(rng.choice(["parameters", "parameters", "Parameters"]))
     if any(ar.count for ar in rows):
         extra_cols.append(rng.choice(["repeat_count", "count", "jr:count"] if style == "single" else ["repeat_count", "count", "control::jr:count"]))
+    if any(ar.appearance for ar in rows):
+        extra_cols.append(rng.choice(["appearance", "Appearance"] + (["control::appearance", "body::appearance"] if style == "double" else [])))
     has_disabled = rng.random() < 0.15
     if has_disabled:
         extra_cols.append("disabled")
     if rng.random() < 0.2:
-        extra_cols.append(rng.choice(["hint", "appearance", "default"]))
+        extra_cols.append(rng.choice(["hint", "default"] + ([] if any(ar.appearance for ar in rows) else ["appearance"])))
     header = base + extra_cols + list(dict.fromkeys(cols.values()))
     if style == "double" and not any("::" in h for h in header):
         style = "single"
@@ -368,7 +424,8 @@ def gen_form(rng, big=False, directed=None):
     # concrete rows
     survey = []
     arows_out = []
-    for ar in rows:
+    for idx, ar in enumerate(rows):
+        ar.rownum = idx + 2
         cells = {tcol: ar.tcell}
         if ar.kind != "end":
             cells[ncol] = ar.name
@@ -381,6 +438,8 @@ def gen_form(rng, big=False, directed=None):
                 cells[cols[(a, None)]] = val
         if ar.trigger:
             cells["trigger"] = ar.trigger
+        if ar.appearance:
+            cells[[c for c in extra_cols if c.lower().endswith("appearance")][0]] = ar.appearance
         if ar.params:
             cells[[c for c in extra_cols if c.lower() == "parameters"][0]] = render_params(rng, ar.params)
         if ar.count:
@@ -395,15 +454,18 @@ def gen_form(rng, big=False, directed=None):
             items = list(row.items())
             rng.shuffle(items)
             row = dict(items)
-        if has_disabled and ar.kind == "q" and rng.random() < 0.2 and ar.name not in _referenced(rows):
+        if has_disabled and ar.kind == "q" and not ar.block and rng.random() < 0.2 and ar.name not in _referenced(rows):
             row["disabled"] = rng.choice(["yes", "true", "TRUE", "no", "maybe"])
             if row["disabled"] in ("yes", "true", "TRUE"):
                 ar = None
         survey.append(row)
         if ar is not None:
             arows_out.append(ar)
-    form = {"survey": survey, "survey_cols": header,
-            "choices": [{"list_name": ln, "name": n, "label": n.upper()} for ln in ("l1", "l2") for n in ("a", "b")]}
+    if choices_translated:
+        choices = [{"list_name": ln, "name": n, "label::en": n.upper(), "label::fr": n.upper() + "f"} for ln in ("l1", "l2") for n in ("a", "b")]
+    else:
+        choices = [{"list_name": ln, "name": n, "label": LABELS[n]} for ln in ("l1", "l2") for n in ("a", "b")]
+    form = {"survey": survey, "survey_cols": header, "choices": choices}
     return form, arows_out, {"tops": [t for t in tops if any(a.name == t for a in arows_out)], "style": style, "cols": cols}
 
 
@@ -423,27 +485,57 @@ def _referenced(rows):
 # ---------------------------------------------------------------- canonical (spec) rows
 
 
+def _logic_of(ar, subst=None):
+    logic = []
+    for a, val in ar.logic:
+        if isinstance(val, dict):
+            d = [[("default" if l is None else l), clean(v)] for l, v in val.items()]
+            # an unsuffixed column is the default language's text; order is irrelevant for the oracle
+            logic.append([a, d])
+        else:
+            v = clean(val)
+            if subst is not None:
+                v = v.replace("%(name)s", subst[0]).replace("%(label)s", subst[1])
+            logic.append([a, v])
+    return logic
+
+
 def spec_rows(arows):
-    """The abstract rows as the Lean spec takes them (+ generated helper rows)."""
+    """The abstract rows as the Lean spec takes them (+ generated helper rows): the harness's own reading
+    of the documented constructs (count helper, or_other companion, table-list helpers, loop copies)."""
     out = []
+    tl = None  # table-list state: None | "armed" | "seen"
+    # an `or_other` select adds the choice `other` to its list — for every user of the list, loops included
+    other_lists = {ar.loop_list for ar in arows if ar.kind == "q" and ar.other}
     for ar in arows:
         if ar.kind == "end":
+            tl = None
             continue
-        logic = []
-        for a, val in ar.logic:
-            if isinstance(val, dict):
-                d = [[("default" if l is None else l), clean(v)] for l, v in val.items()]
-                # an unsuffixed column is the default language's text; order is irrelevant for the oracle
-                logic.append([a, d])
-            else:
-                logic.append([a, clean(val)])
+        if ar.in_loop is not None:
+            # one copy per choice of the list, placeholders replaced by that choice's name / label
+            for cname in ("a", "b") + (("other",) if ar.in_loop.loop_list in other_lists else ()):
+                out.append({"path": f"{ar.in_loop.path}/{cname}/{ar.name}", "tkey": ar.tkey,
+                            "logic": _logic_of(ar, (cname, LABELS[cname])), "trigger": False, "row": ar.name, "gen": "loop-copy"})
+            continue
+        logic = _logic_of(ar)
         if ar.kind == "begin" and ar.count and not re.fullmatch(r"\$\{[A-Za-z_][\w.\-]*\}", clean(ar.count)):
             out.append({"path": ar.path + "_count", "tkey": "calculate",
                         "logic": [["readonly", "true()"], ["calculate", clean(ar.count)]], "trigger": False, "gen": "count"})
         for k, v in own_param_logic(ar.tkey, ar.params):
             logic = [kv for kv in logic if kv[0] != k] + [[k, v]]
+        if ar.kind == "q" and tl == "armed" and ar.tkey in ("select one", "select all that apply", "rank"):
+            # the label-only header select generated before the first select of a table-list: no logic of its own
+            parent = ar.path.rsplit("/", 1)[0]
+            out.append({"path": f"{parent}/reserved_name_for_field_list_labels_{ar.rownum}", "tkey": ar.tkey, "logic": [],
+                        "trigger": False, "gen": "table-list-header"})
+            tl = "seen"
         out.append({"path": ar.path, "tkey": ar.tkey, "logic": logic, "trigger": bool(ar.trigger), "row": ar.name,
                     "params": ar.params})
+        if ar.kind == "begin" and ar.tl:
+            tl = "armed"
+            # the note carrying the group's label
+            out.append({"path": f"{ar.path}/generated_table_list_label_{ar.rownum}", "tkey": "note", "logic": [],
+                        "trigger": False, "gen": "table-list-label"})
         if ar.other:
             out.append({"path": ar.path + "_other", "tkey": "text",
                         "logic": [["relevant", f"selected(../{ar.name}, 'other')"]], "trigger": False, "gen": "other"})
@@ -707,7 +799,7 @@ def explore(ctx, factor, bs):
     for i in range(ctx.pick(30, 300)):
         dup_header_case(ctx)
     for i in range(n):
-        directed = "params" if rng.random() < 0.12 else None
+        directed = rng.choice(["params", "params", "table-list", "table-list", "loop"]) if rng.random() < 0.22 else None
         form, arows, meta = gen_form(rng, big=not ctx.quick(), directed=directed)
         form_case(ctx, form, arows, meta)
     inside = ctx.dist.get("fragment:inside", 0)
